@@ -137,23 +137,38 @@ pub fn gen_line(t: &mut Tape, internal: bool) -> Line {
 pub fn render(t: &mut Tape, lines: &[Line]) -> String {
     let mut out = Vec::new();
     for (i, l) in lines.iter().enumerate() {
+        let mut after_comment = false;
         if t.chance(3, 16) {
-            out.push(["// a comment", "% another comment", "", "   // indented comment"][t.below(4)].to_string());
+            out.push(["// a comment", "% another comment", "", "   // indented comment", "   % indented percent comment", "% c"][t.below(6)].to_string());
+            after_comment = true;
         }
         let mut text = l.text.clone();
         if t.chance(2, 16) {
-            text.push_str("  // trailing comment");
+            text.push_str(["  // trailing comment", "  % trailing percent comment"][t.below(2)]);
         }
         // a continuation line only after a line that ends an rule-like statement: split at "<-"
         if let Some(p) = text.find("<- ") {
             if t.chance(5, 16) && i > 0 {
                 let (a, b) = text.split_at(p + 2);
                 out.push(a.to_string());
+                // sometimes a comment sits between the head and its continuation line
+                if t.chance(1, 3) {
+                    out.push(["% c", "// c", "   % c"][t.below(3)].to_string());
+                }
                 out.push(format!("   {}", b.trim_start()));
                 continue;
             }
         }
+        // an indented statement right after a comment line is still its own statement (the comment is
+        // removed before continuation lines are joined)
+        if after_comment && t.chance(1, 3) {
+            text = format!("  {text}");
+        }
         out.push(text);
+        // a statement followed by an indented comment line
+        if t.chance(1, 16) {
+            out.push("  % indented comment after a statement".to_string());
+        }
     }
     out.join("\n")
 }
